@@ -116,6 +116,14 @@ fn translate_block(
     endian: Endian,
     options: &Options,
 ) -> Result<BlockTranslationResult, Error> {
+    // instruction and successor addresses are computed with plain additions:
+    // refuse a block that reaches the end of the 64-bit address space
+    if address.checked_add(bytes.len() as u64 + 16).is_none() {
+        return Err(Error::Custom(
+            "block wraps around the end of the address space".to_string(),
+        ));
+    }
+
     let mode = match endian {
         Endian::Big => capstone::CS_MODE_32 | capstone::CS_MODE_BIG_ENDIAN,
         Endian::Little => capstone::CS_MODE_32 | capstone::CS_MODE_LITTLE_ENDIAN,
